@@ -285,6 +285,8 @@ def _op_str(op):
         return f"rep {op['from']}..{op['to']}: " + _patch_str(op["patch"])
     if k == "delfn":
         return f"delfn {op['func']}"
+    if k == "insfn":
+        return f"insfn {op['name']}: " + _patch_str(op["patch"])
     return json.dumps(op)[:80]
 
 
